@@ -509,7 +509,8 @@ class SubspaceTensor(ProjectiveTensor, ABC):
             True, if the two subspaces are parallel.
 
         """
-        x = self.meet(other)
+        # coinciding subspaces (their meet is the zero tensor, which every hyperplane contains) are parallel
+        x = meet(self, other, _check_dependence=False)
         return infty_hyperplane(self.dim).contains(x)
 
     @abstractmethod
